@@ -504,3 +504,28 @@ Definition wellformed (r : mres) : Prop :=
   g_kind (i_gvk (cur r)) <> "" /\ (has_suffix "List" (g_kind (i_gvk (cur r))) = true \/ i_name (cur r) <> "").
 Definition has_kind_and_name (r : mres) : Prop :=
   g_kind (i_gvk (cur r)) <> "" /\ i_name (cur r) <> "".
+
+(* ---------- accumulation over kustomization layers (KustTarget.accumulateTarget) ----------
+   A layer first merges the accumulators of its bases into an empty accumulator with AppendAll
+   (accumulateResources -> MergeAccumulator), then runs its own operations (files appended, generators
+   absorbed, transformers). Files and bases may interleave in the real resources list; that only affects
+   the order of the resources. *)
+Inductive layer := Layer (bases : list layer) (ops : list op).
+
+Definition merge_with (acc : layer -> res rmap) : list layer -> rmap -> res rmap :=
+  fix merge (bs : list layer) (m : rmap) {struct bs} : res rmap :=
+    match bs with
+    | [] => Ok m
+    | b :: t => do mb <- acc b; do m' <- append_all mb m; merge t m'
+    end.
+
+Fixpoint accumulate (l : layer) : res rmap :=
+  match l with
+  | Layer bases ops =>
+      do m <- (fix merge (bs : list layer) (m : rmap) {struct bs} : res rmap :=
+                 match bs with
+                 | [] => Ok m
+                 | b :: t => do mb <- accumulate b; do m' <- append_all mb m; merge t m'
+                 end) bases [];
+      run ops m
+  end.
